@@ -1,15 +1,19 @@
 # -*- coding: utf-8 -*-
-from typing import Optional, TypeVar
+from typing import Any, Optional, TypeVar
 
 from ..._utils import map_and_filter
 from ...schema import (
     SPECIFIED_SCALAR_TYPES,
+    Argument,
     Directive,
     EnumType,
+    GraphQLType,
     InputField,
     InputObjectType,
     InterfaceType,
+    ListType,
     NamedType,
+    NonNullType,
     ObjectType,
     ScalarType,
     SchemaVisitor,
@@ -150,8 +154,43 @@ class VisibilitySchemaTransform(SchemaVisitor):
 
     def on_input_field(self, field: InputField) -> Optional[InputField]:
         if self._is_type_visible(unwrap_type(field.type)):
+            if field.has_default_value:
+                field.default_value = self._visible_default(
+                    field.type, field.default_value
+                )
             return super().on_input_field(field)
         return None
+
+    def on_argument(self, argument: Argument) -> Optional[Argument]:
+        if argument.has_default_value:
+            argument.default_value = self._visible_default(
+                argument.type, argument.default_value
+            )
+        return super().on_argument(argument)
+
+    def _visible_default(self, type_: GraphQLType, value: Any) -> Any:
+        # Default values are handed to resolvers and exposed through
+        # introspection: hidden input fields must not survive in them.
+        if value is None:
+            return value
+        if isinstance(type_, NonNullType):
+            return self._visible_default(type_.type, value)
+        if isinstance(type_, ListType):
+            if isinstance(value, (list, tuple)):
+                return [self._visible_default(type_.type, v) for v in value]
+            return self._visible_default(type_.type, value)
+        if isinstance(type_, InputObjectType) and isinstance(value, dict):
+            fields = {}
+            for f in type_.fields:
+                fields[f.python_name] = fields[f.name] = f
+            return {
+                key: self._visible_default(fields[key].type, entry)
+                for key, entry in value.items()
+                if key in fields
+                and self.is_input_field_visible(type_.name, fields[key].name)
+                and self._is_type_visible(unwrap_type(fields[key].type))
+            }
+        return value
 
     def on_directive(self, directive: Directive) -> Optional[Directive]:
         if directive and not self.is_directive_visible(directive.name):
